@@ -5,6 +5,16 @@ values (tuples, literal lists, functions, classes, None) have their own wrappers
 """
 import z3
 
+def safe_forall(vs, body, patterns=None, **kw):
+    """z3.ForAll that drops user patterns z3 rejects (ite / boolean connectives inside pattern terms)."""
+    if patterns:
+        try:
+            return z3.ForAll(vs, body, patterns=patterns, **kw)
+        except z3.Z3Exception:
+            return z3.ForAll(vs, body, **kw)
+    return z3.ForAll(vs, body, **kw)
+
+
 RefSort = z3.DeclareSort("Ref")
 NULL = z3.Const("null", RefSort)
 
@@ -134,9 +144,9 @@ class Seq(Kind):
         i = z3.Const(fresh_name("ci"), z3.IntSort())
         la, lb = self.len(a), self.len(b)
         st.assume(self.sort().len(c) == la + lb)
-        st.assume(z3.ForAll([i], z3.Implies(z3.And(0 <= i, i < la), self.at(c, i) == self.at(a, i)), patterns=[self.at(c, i)]))
-        st.assume(z3.ForAll([i], z3.Implies(z3.And(0 <= i, i < lb), self.at(c, la + i) == self.at(b, i)), patterns=[self.at(b, i)]))
-        st.assume(z3.ForAll([i], z3.Implies(z3.And(la <= i, i < la + lb), self.at(c, i) == self.at(b, i - la)), patterns=[self.at(c, i)]))
+        st.assume(safe_forall([i], z3.Implies(z3.And(0 <= i, i < la), self.at(c, i) == self.at(a, i)), patterns=[self.at(c, i)]))
+        st.assume(safe_forall([i], z3.Implies(z3.And(0 <= i, i < lb), self.at(c, la + i) == self.at(b, i)), patterns=[self.at(b, i)]))
+        st.assume(safe_forall([i], z3.Implies(z3.And(la <= i, i < la + lb), self.at(c, i) == self.at(b, i - la)), patterns=[self.at(c, i)]))
         st.assume(self.lemma_concat(c, a, b))
         return c
 
@@ -144,7 +154,7 @@ class Seq(Kind):
         c = z3.Const(fresh_name("sub"), self.sort())
         i = z3.Const(fresh_name("si"), z3.IntSort())
         st.assume(self.sort().len(c) == z3.If(n >= 0, n, 0))
-        st.assume(z3.ForAll([i], z3.Implies(z3.And(0 <= i, i < n), self.at(c, i) == self.at(t, i + lo)), patterns=[self.at(c, i)]))
+        st.assume(safe_forall([i], z3.Implies(z3.And(0 <= i, i < n), self.at(c, i) == self.at(t, i + lo)), patterns=[self.at(c, i)]))
         st.assume(self.lemma_sublist(c, t))
         return c
 
@@ -154,18 +164,18 @@ class Seq(Kind):
         i = z3.Const(fresh_name("ri"), z3.IntSort())
         n = self.len(t)
         st.assume(self.sort().len(c) == n - 1)
-        st.assume(z3.ForAll([i], z3.Implies(z3.And(0 <= i, i < k), self.at(c, i) == self.at(t, i)), patterns=[self.at(c, i)]))
-        st.assume(z3.ForAll([i], z3.Implies(z3.And(k <= i, i < n - 1), self.at(c, i) == self.at(t, i + 1)), patterns=[self.at(c, i)]))
+        st.assume(safe_forall([i], z3.Implies(z3.And(0 <= i, i < k), self.at(c, i) == self.at(t, i)), patterns=[self.at(c, i)]))
+        st.assume(safe_forall([i], z3.Implies(z3.And(k <= i, i < n - 1), self.at(c, i) == self.at(t, i + 1)), patterns=[self.at(c, i)]))
         st.assume(self.lemma_sublist(c, t))
         x = z3.Const(fresh_name("lx"), self.elem.sort())
-        st.assume(z3.ForAll([x], z3.Implies(z3.And(self.contains(t, x), x != self.at(t, k)), self.contains(c, x)),
+        st.assume(safe_forall([x], z3.Implies(z3.And(self.contains(t, x), x != self.at(t, k)), self.contains(c, x)),
                             patterns=[self.contains(t, x)]))
         return c
 
     def equal(self, a, b):
         i = z3.Const(fresh_name("ei"), z3.IntSort())
         return z3.And(self.len(a) == self.len(b),
-                      z3.ForAll([i], z3.Implies(z3.And(0 <= i, i < self.len(a)),
+                      safe_forall([i], z3.Implies(z3.And(0 <= i, i < self.len(a)),
                                                 z3.Select(self.arr(a), i) == z3.Select(self.arr(b), i))))
 
     # membership is an uninterpreted predicate tied to the elements by two global axioms (see axioms());
@@ -186,8 +196,8 @@ class Seq(Kind):
         x = z3.Const("ax_x", self.elem.sort())
         mem, idx = self.mem_fn(), self.idx_fn()
         return [
-            z3.ForAll([l, i], z3.Implies(z3.And(0 <= i, i < self.len(l)), mem(l, self.at(l, i))), patterns=[self.at(l, i)]),
-            z3.ForAll([l, x], z3.Implies(mem(l, x), z3.And(0 <= idx(l, x), idx(l, x) < self.len(l),
+            safe_forall([l, i], z3.Implies(z3.And(0 <= i, i < self.len(l)), mem(l, self.at(l, i))), patterns=[self.at(l, i)]),
+            safe_forall([l, x], z3.Implies(mem(l, x), z3.And(0 <= idx(l, x), idx(l, x) < self.len(l),
                                                           self.at(l, idx(l, x)) == x)), patterns=[mem(l, x)]),
         ]
 
@@ -207,25 +217,25 @@ class Seq(Kind):
         x = z3.Const(fresh_name("lx"), self.elem.sort())
         mem = self.mem_fn()
         USED_MEM[str(self.elem.sort())] = self
-        return z3.ForAll([x], mem(new, x) == z3.Or(mem(old, x), x == y), patterns=[mem(new, x)])
+        return safe_forall([x], mem(new, x) == z3.Or(mem(old, x), x == y), patterns=[mem(new, x)])
 
     def lemma_concat(self, new, a, b):
         x = z3.Const(fresh_name("lx"), self.elem.sort())
         mem = self.mem_fn()
         USED_MEM[str(self.elem.sort())] = self
-        return z3.ForAll([x], mem(new, x) == z3.Or(mem(a, x), mem(b, x)), patterns=[mem(new, x)])
+        return safe_forall([x], mem(new, x) == z3.Or(mem(a, x), mem(b, x)), patterns=[mem(new, x)])
 
     def lemma_literal(self, new, terms):
         x = z3.Const(fresh_name("lx"), self.elem.sort())
         mem = self.mem_fn()
         USED_MEM[str(self.elem.sort())] = self
-        return z3.ForAll([x], mem(new, x) == z3.Or([x == t for t in terms] or [z3.BoolVal(False)]), patterns=[mem(new, x)])
+        return safe_forall([x], mem(new, x) == z3.Or([x == t for t in terms] or [z3.BoolVal(False)]), patterns=[mem(new, x)])
 
     def lemma_sublist(self, new, old):
         x = z3.Const(fresh_name("lx"), self.elem.sort())
         mem = self.mem_fn()
         USED_MEM[str(self.elem.sort())] = self
-        return z3.ForAll([x], z3.Implies(mem(new, x), mem(old, x)), patterns=[mem(new, x)])
+        return safe_forall([x], z3.Implies(mem(new, x), mem(old, x)), patterns=[mem(new, x)])
 
 
 class SetK(Kind):
@@ -248,10 +258,10 @@ class SetK(Kind):
         """Fresh set C with forall x. C[x] == body(x); triggered on C[x] and on membership in the sources."""
         C = z3.Const(name or fresh_name(base), self.sort())
         x = z3.Const(fresh_name("sx"), self.elem.sort())
-        st.assume(z3.ForAll([x], z3.Select(C, x) == body(x), patterns=[z3.Select(C, x)]))
+        st.assume(safe_forall([x], z3.Select(C, x) == body(x), patterns=[z3.Select(C, x)]))
         for src in sources:
             try:
-                st.assume(z3.ForAll([x], z3.Select(C, x) == body(x), patterns=[z3.Select(src, x)]))
+                st.assume(safe_forall([x], z3.Select(C, x) == body(x), patterns=[z3.Select(src, x)]))
             except z3.Z3Exception:
                 pass
         return C
@@ -273,11 +283,11 @@ class SetK(Kind):
 
     def subset(self, a, b):
         x = z3.Const(fresh_name("sx"), self.elem.sort())
-        return z3.ForAll([x], z3.Implies(z3.Select(a, x), z3.Select(b, x)), patterns=[z3.Select(a, x)])
+        return safe_forall([x], z3.Implies(z3.Select(a, x), z3.Select(b, x)), patterns=[z3.Select(a, x)])
 
     def equal(self, a, b):
         x = z3.Const(fresh_name("sx"), self.elem.sort())
-        return z3.ForAll([x], z3.Select(a, x) == z3.Select(b, x))
+        return safe_forall([x], z3.Select(a, x) == z3.Select(b, x))
 
 
 _MAP_SORTS = {}
